@@ -19,20 +19,23 @@ VARIABLES l,      \* next trace line
           q,      \* senders that must be drained now (set by Quiesce, cleared by the next event)
           chk,    \* counters observed at the last CallEnd (<<>> otherwise)
           endv,   \* the End event (<<>> before)
-          scn     \* current scenario number
+          scn,    \* current scenario number
+          ovd,    \* senders whose pending write has been held longer than WriteTimeout (Overdue)
+          lateok  \* such a write was nevertheless reported successful
 Trace == ndJsonDeserialize("trace.ndjson")
 ASSUME TLCSet(7, 0)
 
-tvars == <<vars, l, q, chk, endv, scn>>
+tvars == <<vars, l, q, chk, endv, scn, ovd, lateok>>
 E == Trace[l]
 IsEvent(e) == l <= Len(Trace) /\ Trace[l].ev = e /\ l' = l + 1
-Keep == q' = {} /\ chk' = <<>> /\ UNCHANGED <<endv, scn, hist, pc>>
+Keep0 == q' = {} /\ chk' = <<>> /\ UNCHANGED <<endv, scn, hist, pc>>
+Keep == Keep0 /\ UNCHANGED <<ovd, lateok>>
 
-TrInit == Init /\ l = 1 /\ q = {} /\ chk = <<>> /\ endv = <<>> /\ scn = 0
+TrInit == Init /\ l = 1 /\ q = {} /\ chk = <<>> /\ endv = <<>> /\ scn = 0 /\ ovd = {} /\ lateok = FALSE
 
 TrReset ==
     /\ IsEvent("Reset")
-    /\ scn' = E.scn /\ q' = {} /\ chk' = <<>> /\ endv' = <<>>
+    /\ scn' = E.scn /\ q' = {} /\ chk' = <<>> /\ endv' = <<>> /\ ovd' = {} /\ lateok' = FALSE
     /\ w' = [s \in Senders |-> <<>>] /\ r' = [s \in Senders |-> <<>>]
     /\ ri' = [s \in Senders |-> 0]
     /\ closedB' = [s \in Senders |-> FALSE]
@@ -72,7 +75,7 @@ TrCallEnd ==
        THEN PushClosedEff /\ nextId' = nextId + 1
        ELSE UNCHANGED <<bufv, conn, recon, wb, hndv, clsv, statv, ghov>>
     /\ chk' = [fwd |-> E.fwd, drp |-> E.drp]
-    /\ q' = {} /\ UNCHANGED <<endv, scn, hist, pc>>
+    /\ q' = {} /\ UNCHANGED <<endv, scn, hist, pc, ovd, lateok>>
 
 (* swap(): SwapSleep = about to cond.Wait (first time: the timer was just armed),
    SwapWake = Wait returned (lock held; "run"), SwapDone = left the loop *)
@@ -119,12 +122,21 @@ TrPopWrite ==
 TrPopOK ==
     /\ IsEvent("PopOK")
     /\ WriteOKEff(E.s)
-    /\ Keep
+    /\ lateok' = (lateok \/ E.s \in ovd) /\ ovd' = ovd \ {E.s}
+    /\ Keep0
+(* the driver held the sender before the write for longer than WriteTimeout (a stalled upstream
+   seen from the write's side): the deadline set for this write has passed, so it must fail *)
+TrOverdue ==
+    /\ IsEvent("Overdue")
+    /\ ovd' = ovd \cup {E.s} /\ UNCHANGED lateok
+    /\ UNCHANGED <<bufv, conn, recon, wb, hndv, clsv, statv, ghov>>
+    /\ Keep0
 TrPopErr ==               \* left = what f returned (unwritten buffers - 1), ri = b.ri afterwards
     /\ IsEvent("PopErr")
     /\ WriteErrEff(E.s, (Len(r[E.s]) - ri[E.s]) - E.left - 1, E.ri)
     /\ UNCHANGED errs
-    /\ Keep
+    /\ ovd' = ovd \ {E.s} /\ UNCHANGED lateok
+    /\ Keep0
 
 TrConnected ==
     /\ IsEvent("Connected")
@@ -167,17 +179,17 @@ TrQuiesce ==
     /\ IsEvent("Quiesce")
     /\ q' = ToSet(E.healthy)
     /\ chk' = <<>>
-    /\ UNCHANGED <<vars, endv, scn>>
+    /\ UNCHANGED <<vars, endv, scn, ovd, lateok>>
 TrEnd ==
     /\ IsEvent("End")
     /\ endv' = E
     /\ (skipped # {} => PrintT(<<"KNOWN_SKIP", scn, Cardinality(skipped)>>))
     /\ q' = {} /\ chk' = <<>>
-    /\ UNCHANGED <<vars, scn>>
+    /\ UNCHANGED <<vars, scn, ovd, lateok>>
 
 TrNext == \/ TrReset \/ TrPush \/ TrCallEnd \/ TrSwapSleep \/ TrSwapWake \/ TrSwapTimeout \/ TrSwapDone
           \/ TrPopWrite \/ TrPopOK \/ TrPopErr \/ TrConnected \/ TrReconClose \/ TrReport \/ TrReportErr
-          \/ TrClose \/ TrQuiesce \/ TrEnd
+          \/ TrClose \/ TrQuiesce \/ TrEnd \/ TrOverdue
 TraceSpec == TrInit /\ [][TrNext]_tvars
 
 -------------------------------------------------------------------------------
@@ -212,5 +224,7 @@ EndCounts ==
 HighWater == TLCSet(7, IF l > TLCGet(7) THEN l ELSE TLCGet(7))
 TraceAccepted == IF TLCGet(7) = Len(Trace) + 1 THEN TRUE
                  ELSE PrintT(<<"TRACE_REJECTED_AT_LINE", TLCGet(7)>>) /\ FALSE
-TraceView == <<View, l, q, chk, endv, scn>>
+(* a write attempted after its deadline (WriteTimeout) has passed fails and the sender reconnects *)
+DeadlineHonoured == ~lateok
+TraceView == <<View, l, q, chk, endv, scn, ovd, lateok>>
 ===============================================================================
